@@ -73,8 +73,7 @@ def regenerate():
 
 # ------------------------------------------------------------------------------------------ abstraction alpha
 
-CONST_ATTRS = {"CPermutation": [("dtype", "_dtype")], "CTransposePermutation": [("dtype", "_dtype")],
-               "CKronDiag": [("upper", "upper")]}
+CONST_ATTRS = {"CKronDiag": [("upper", "upper")]}
 
 
 class Abs:
@@ -276,7 +275,7 @@ def build(e, dtype):
         k = ob.user_minimal_class() if e["py"] == "UserMinimal" else getattr(O, e["py"])
         o = k(*[xval(a, dtype) for a in e.get("args", [])], **{n: xval(v, dtype) for n, v in e.get("kwargs", {}).items()})
         for step in e.get("then", []):              # construction history: conversions applied before the case starts
-            o = sq.apply_then(o, step)
+            o = sq.apply_then(o, [dtype if x == "src" else x for x in step])
         return o
     if any(isinstance(v, dict) and v.get("cls") == "X" for v in all_subs(e)[1:]):
         return _build_mixed(e, dtype)
@@ -561,7 +560,6 @@ def returned_dtype_failures(op, want, tag):
     return out
 
 
-NOMINAL = ("CPermutation", "CTransposePermutation")     # classes without floating data: the dtype is a nominal constant
 CONVERTING = ("double", "float", "type", "to")
 PRIORITY = ["aliased-result", "source-changed", "raises", "silent", "not-an-operator", "class", "arity", "kind", "flag", "kwarg", "shape", "leaf", "index-cast",
             "leaf-dtype", "dtype", "requires_grad", "shared-storage", "dense-value", "returned-dtype", "representation"]
@@ -585,6 +583,8 @@ def direct_check(case, o, res, exc, meta, heavy=True):
     tgt = target_dtype(q, src)
     has_other = any(a[0] == "V" for a in all_pos_children(case.oin))
     has_float = any(t[3] in ("F32", "F64") for t in leaves(case.oin))
+    if case.mixed and q[0] in ("dtype", "returned"):
+        return fails                  # a deliberately mixed input has no single dtype to report
     if q[0] == "dtype":
         if exc is not None:
             fails.append({"fail": "raises:" + exc.split(":")[0], "exc": exc})
@@ -961,6 +961,7 @@ def grid(ctx):
 
     def add(name, e, dts, queries, rgs):
         nonlocal rot
+        e = sq.with_perm_dtype(e)      # permutation operators get dtype=<data dtype>: a consistent operator
         for (src, defdt) in dts:
             for qi, q in enumerate(queries):
                 rot += 1
@@ -1105,33 +1106,15 @@ def shrink(meta, c, f, budget=40):
     return cur_e, cur_q, f, cur_c
 
 
-NOMINAL_PY = ("Permutation", "TransposePermutation")
-NON_CONVERTING = ("rebuild", "evaluate_kernel", "clone", "detach", "cpu", "to_dev", "dtype", "returned")
-
-
-def nominal_in(e):
-    return [root_class(x) for x in all_subs(e) if root_class(x) in NOMINAL_PY]
-
-
-def converted_nominal(e):
-    """does the INPUT contain a permutation operator whose nominal dtype was changed by an earlier conversion?"""
-    return any(x.get("cls") == "X" and root_class(x) in NOMINAL_PY and x.get("then") for x in all_subs(e))
-
-
 def opg(fam):
     return "type" if fam in ("double", "float", "type") else fam
 
 
 def finding_key(meta, c, f):
     """structural key of a failing case: class of the smallest failing sub-operator, query family, failure kind (and
-    probe site), whether the default dtype changed between construction and call.  Attribution rules are explicit:
-
-    * a dtype / returned-dtype mismatch on the result of a NON-converting call (or on the dtype / returned probes of the
-      original itself) when the ORIGINAL already reports a dtype different from its floating data and a permutation
-      operator (no floating data, hard-wired nominal dtype) sits in the tree: the copy is faithful, the inconsistency is
-      the original's -> fail = nominal-dtype, obs = original-inconsistent.  Nothing else is attributed to the nominal
-      dtype: in particular never a leaf dtype, an aliased result or a changed source operator;
-    * requires_grad that only SPREADS above a Kronecker node -> Kron."""
+    probe site), whether the default dtype changed between construction and call.  One explicit attribution rule:
+    requires_grad that only SPREADS above a Kronecker node (on the result or on the source) -> Kron.  (The rule that
+    attributed dtype mismatches to the hard-wired nominal dtype of permutation operators is gone with that defect.)"""
     kind = f["fail"]
     extra = {"hist": c.hist()}
     if kind.split(":")[0] in ("flag", "kwarg", "class", "arity") and f.get("class") and f["class"] not in ("?", ""):
@@ -1141,14 +1124,8 @@ def finding_key(meta, c, f):
     cls = root_class(e2)
     kind = f2["fail"]
     fam = family(q2)
-    if converted_nominal(e2) and fam != "to":
-        extra["nominal"] = "converted"      # (to() sets the nominal dtype itself: never attributed to an earlier conversion)
     if kind.split(":")[0] in ("flag", "kwarg", "class", "arity") and f2.get("class") and f2["class"] not in ("?", ""):
         return dict({"class": f2["class"][1:] if f2["class"].startswith("C") else f2["class"], "fail": kind}, **extra), e2, q2, f2
-    if kind in ("dtype", "returned-dtype") and fam in NON_CONVERTING and c2.incons and not c2.mixed:
-        nom = nominal_in(e2)
-        if nom and cls not in NOMINAL_PY:
-            return dict({"class": nom[0], "fail": "nominal-dtype", "obs": "original-inconsistent"}, **extra), e2, q2, f2
     if kind == "source-changed:tensor-requires_grad" and f2.get("before", "").endswith("rg=False"):
         kr = [root_class(x) for x in all_subs(e2) if root_class(x) in ("Kron", "KronTriangular", "KronDiag", "SumKron", "KronAddedDiag")]
         if kr:
